@@ -189,25 +189,30 @@ static void set_presence(unsigned pat, int umem) {
 #define NUMEM 1
 #endif
 
-// ---- reference image
-static void ref_store(unsigned char *img, int bitpos, int width, uint64_t val) {
-  for (int b = 0; b < 64; b++) {
-    if (b >= width) break;
-    int p = bitpos + b;
-    unsigned char m = 1u << (p & 7);
-    if (val >> b & 1) img[p >> 3] |= m; else img[p >> 3] &= ~m;
-  }
+// ---- reference image, kept as little-endian 64-bit words.  Under the psABI no scalar or bit-field
+// straddles an aligned 8-byte unit, so a store touches exactly one word (asserted).
+#define MAXWORDS (MAXSIZE / 8)
+static void ref_store(uint64_t *img, int bitpos, int width, uint64_t val) {
+  int w = bitpos >> 6, sh = bitpos & 63;
+  VASSERT(width >= 1 && width <= 64 && sh + width <= 64 && w < MAXWORDS, "store lies inside one 8-byte unit");
+  uint64_t mask = width == 64 ? ~0ULL : (1ULL << width) - 1;
+  img[w] = (img[w] & ~(mask << sh)) | ((val & mask) << sh);
 }
-static void ref_image(unsigned char *img) {
-  for (int i = 0; i < MAXSIZE; i++) img[i] = 0;
+static void ref_image(uint64_t *img) {
+  for (int i = 0; i < MAXWORDS; i++) img[i] = 0;
   for (int k = 0; k < MAXLEAF; k++)
     if (k < nleaf && (cur_present >> k & 1))
       ref_store(img, leaf_pos[k][0], leaf_pos[k][1], (uint64_t)IN.leaf[k].val);
 }
+static uint64_t word_of(const char *buf, int w) {        // little-endian read of 8 bytes
+  uint64_t v = 0;
+  for (int j = 0; j < 8; j++) v |= (uint64_t)(unsigned char)buf[w * 8 + j] << (8 * j);
+  return v;
+}
 
 // ---- interpretation of the automatic-storage assignment chain
 static int n_assign;
-static unsigned char auto_img[MAXSIZE];
+static uint64_t auto_img[MAXWORDS];
 static long lval_addr(Node *n, Member **bf);
 static long rval_ptr(Node *n) {            // value of a pointer-typed expression made by init_desg_expr
   if (n->kind == ND_ADD) return rval_ptr(n->lhs) + eval(n->rhs);
@@ -260,15 +265,15 @@ void h_static(void) {
   for (int um = 0; um < NUMEM; um++)
     for (int j = 0; j < NPAT; j++) {
       set_presence(pattern(j), um);
-      unsigned char want[MAXSIZE];
+      uint64_t want[MAXWORDS];
       ref_image(want);
       Relocation head = {0};
       for (int i = 0; i < MAXSIZE; i++) sbuf[i] = 0;             // gvar_initializer(): calloc(1, size)
       Relocation *end = write_gvar_data(&head, obj_init, obj_ty, sbuf, 0);
       VASSERT(end == &head && head.next == NULL, "no relocation for integer constants");
-      for (int i = 0; i < MAXSIZE; i++)
-        if (i < obj_size)
-          VASSERT((unsigned char)sbuf[i] == want[i], "static byte image equals reference image");
+      for (int w = 0; w < MAXWORDS; w++)
+        if (w * 8 < obj_size)
+          VASSERT(word_of(sbuf, w) == want[w], "static byte image equals reference image");
     }
   VCOVER();
 }
@@ -281,20 +286,20 @@ void h_auto(void) {
   for (int um = 0; um < NUMEM; um++)
     for (int j = 0; j < NPAT; j++) {
       set_presence(pattern(j), um);
-      unsigned char want[MAXSIZE];
+      uint64_t want[MAXWORDS];
       ref_image(want);
       InitDesg desg = {NULL, 0, NULL, &var};                     // as lvar_initializer() does
       Node *chain = create_lvar_init(obj_init, obj_ty, &desg, NULL);
-      for (int i = 0; i < MAXSIZE; i++) auto_img[i] = 0;         // ND_MEMZERO
+      for (int i = 0; i < MAXWORDS; i++) auto_img[i] = 0;        // ND_MEMZERO
       n_assign = 0;
       run_chain(chain);
       int n_present = 0;
       for (int k = 0; k < MAXLEAF; k++)
         if (cur_present >> k & 1) n_present++;
       VASSERT(n_assign == n_present, "exactly one assignment per present leaf");
-      for (int i = 0; i < MAXSIZE; i++)
-        if (i < obj_size)
-          VASSERT(auto_img[i] == want[i], "automatic-storage image equals reference image");
+      for (int w = 0; w < MAXWORDS; w++)
+        if (w * 8 < obj_size)
+          VASSERT(auto_img[w] == want[w], "automatic-storage image equals reference image");
     }
   VCOVER();
 }
